@@ -201,7 +201,8 @@ pub fn run_vamm_history(rng: &mut Rng, h: &mut History, r: &mut Report, steps: u
             }
             16 | 17 => {
                 let (b, s) = *rng.pick(&[(1u64, 0u64), (1, 1), (1, 15), (10, 100), (100, 1000), (1000, 20000), (1, 900), (1, 3600)]);
-                h.step(Op::Advance { blocks: b, secs: s }, r);
+                let nanos = if rng.chance(1, 2) { rng.below(1_000_000_000) } else { 0 };
+                h.step(Op::Advance { blocks: b, secs: s, nanos }, r);
             }
             18 => {
                 let open = s.open;
